@@ -181,4 +181,4 @@ static bool replay(const std::string &text) {
     vp::CaseScope scope([] { return ser_case(g_cur); });
     return run_case(c, "replay");
 }
-int main(int argc, char **argv) { return vp::main_(argc, argv, {run, replay}); }
+VP_MAIN(run, replay)
